@@ -467,6 +467,11 @@ func zzHsConfigureFocused(nSuiteMenus int) *zzHsWorld {
 	w.hvr = zzHsDim("hello_verify", zzDimAuth, zzsymParam("HSHVR"), 0) == 1
 	w.serverChain = [][]byte{zzsymBytes("server_cert", 3)}
 	w.clientChain = [][]byte{zzsymBytes("client_cert", 2)}
+	// leaf only, leaf + 1 issuer, or a chain of 12 entries: every presented entry reaches the peer's view
+	for i := []int{0, 1, 11}[zzHsDim("chain_issuers", zzDimAuth, 3, 0)]; i > 0; i-- {
+		w.serverChain = append(w.serverChain, zzsymBytes("server_issuer", 2))
+		w.clientChain = append(w.clientChain, zzsymBytes("client_issuer", 2))
+	}
 	w.psk = zzsymBytes("psk", 2)
 
 	ccfg := &dtlsconfig.HandshakeConfig{
@@ -844,7 +849,7 @@ func zzMasterMirror12() {
 		zzsymCover("auth_certificate")
 		// the ServerKeyExchange signature the client checked is over client_random || server_random || params, under the presented chain
 		zzsymAssert(len(zzHsKeySigLog) == 1, "mm/client_checked_key_signature")
-		zzsymAssert(len(zzHsKeySigLog[0].certs) == 1 && zzsymEqBytes(zzHsKeySigLog[0].certs[0], w.serverChain[0]), "mm/key_signature_checked_against_presented_chain")
+		zzsymAssert(len(zzHsKeySigLog[0].certs) == len(w.serverChain) && zzsymEqBytes(zzHsKeySigLog[0].certs[0], w.serverChain[0]), "mm/key_signature_checked_against_presented_chain")
 		// the client's view after chain verification (which built a DIFFERENT path, zzHsBuiltPath) is still the presented list
 		zzsymAssert(len(cs.PeerCertificates) == len(w.serverChain), "mm/client_view_of_server_chain_length_after_verification")
 		for i := range w.serverChain {
